@@ -324,19 +324,21 @@ Ltac prune :=
                          lazymatch c with nil => idtac | cons _ _ => idtac end;
                          rewrite E in *; clear E
                      end;
-              cbn [length] in *; lia ].
+              cbn [length map] in *; lia ].
+Ltac miter rew :=
+  cbv beta iota zeta; cbn [fst snd]; use_eqns;
+  repeat match goal with p : (_ * _)%type |- _ => destruct p end;
+  draw_bounds;
+  repeat (progress (try progress mrew; try progress idioms; try progress rew;
+                    unfold m_height, m_root; munfold; cbv beta iota zeta; cbn [fst snd]));
+  lazymatch goal with
+  | |- ?l = ?r => step_heads l r
+  end; prune.
 Ltac mcrush_with rew :=
   munfold;
-  repeat (cbv beta iota zeta; cbn [fst snd]; use_eqns;
-          repeat match goal with p : (_ * _)%type |- _ => destruct p end;
-          draw_bounds;
-          repeat (progress (try progress mrew; try progress idioms; try progress rew;
-                            unfold m_height, m_root; munfold; cbv beta iota zeta; cbn [fst snd]));
-          lazymatch goal with
-          | |- ?l = ?r => step_heads l r
-          end; prune);
+  repeat (miter rew);
   repeat match goal with p : (_ * _)%type |- _ => destruct p end;
-  cbv beta iota zeta; try progress idioms; munfold; cbv beta iota zeta; cbn [fst snd]; try mleaf.
+  cbv beta iota zeta; try progress idioms; try progress rew; munfold; cbv beta iota zeta; cbn [fst snd]; try mleaf.
 Ltac mcrush2 := mcrush_with idtac.
 
 (* ---------------------------------------------------------------------------------------------- *)
@@ -463,4 +465,54 @@ Proof.
     rewrite ?enumerate_from_1_tl; dd_loops;
     rewrite ?K1t, ?K1p, ?G1t, ?G1p, ?G2t, ?G2p, ?d_choice_map;
     try rewrite (filter_ext _ _ M2t); try rewrite (filter_ext _ _ M2p)).
+Qed.
+
+(* ---------------------------------------------------------------------------------------------- *)
+(* mutShrink                                                                                         *)
+(* ---------------------------------------------------------------------------------------------- *)
+(* the candidate list: a loop that appends the pairs passing the test, or the same as a comprehension *)
+Ltac collect_loops :=
+  repeat lazymatch goal with
+         | |- context [for_each (map zfst ?e) ?b (@nil (Z * node)) ?ds] =>
+             rewrite (for_each_filter_append (fun q : Z * node => mem_ty (nret (snd q)) (nargs (snd q))) (fun q => q) b)
+               by (intros [? ?] ? ?; cbn [fst snd]; mcrush_with ltac:(rewrite ?is_primitive_mem));
+             rewrite map_id, app_nil_l;
+             rewrite (pair_filter (fun nd => mem_ty (nret nd) (nargs nd))) by (intros; reflexivity)
+         end.
+Ltac zfst_pairs :=
+  repeat match goal with
+         | |- context [zfst (?a, ?b)] => change (zfst (a, b)) with (Z.of_nat a, b)
+         end.
+Ltac positions_list :=
+  repeat lazymatch goal with
+         | |- context [filter _ (enumerate_from 0 ?args)] =>
+             rewrite (enumerate_from_0 args); erewrite idx_filter by (intros; reflexivity); cbv beta
+         end.
+Ltac walk_loop l :=
+  repeat match goal with
+         | |- context [range1 (Z.of_nat ?j + 1)] => replace (Z.of_nat j + 1) with (Z.of_nat (S j)) by lia
+         | |- context [for_each (range1 _) ?b (Z.of_nat ?a + 1, ?o)] =>
+             replace (Z.of_nat a + 1) with (Z.of_nat (S a)) by lia
+         end;
+  try lazymatch goal with
+      | |- context [for_each (range1 (Z.of_nat ?k)) ?b (Z.of_nat ?r, ?o) ?ds] =>
+          rewrite (for_walk l b); [ rewrite range1_length | intros; mcrush_with ltac:(span_slices) ]
+      end.
+Ltac walk_result :=
+  repeat match goal with
+         | E : walk2 _ _ (S _) _ = Ok (_, ?o) |- _ =>
+             is_var o; let s := fresh "s" in destruct (walk2_some _ _ _ _ _ _ E) as [s ->]
+         end.
+
+Ltac shrink_hook l :=
+    span_slices; walk_result; zfst_pairs; cbn [fst snd from_opt];
+    rewrite ?enumerate_from_1_tl; collect_loops; positions_list;
+    rewrite ?d_choice_map, ?shrink_walk_walk2_nil;
+    walk_loop l.
+
+Lemma gen_mutShrink_eq l ds : gen_mutShrink l ds = m_mutShrink l ds.
+Proof.
+  first [ reflexivity | idtac ].
+  unfold gen_mutShrink, m_mutShrink, mut_shrink, positions.
+  mcrush_with ltac:(shrink_hook l).
 Qed.
